@@ -160,6 +160,8 @@ def step (d : DSt) (line : String) : DSt × String :=
         | none => (d, "bad-op")
       | ["set", k, v] => seqReply d (.set k (.str v))
       | ["setm", k, v] => seqReply d (.set k (.str v)) true
+      | ["sete", k, v] => seqReply d (.set k (.str v))
+      | ["shifte", k] => seqReply d (.shift k)
       | ["inc", k, n] => match n.toInt? with
         | some i => seqReply d (.inc k i)
         | none => (d, "bad-op")
